@@ -83,7 +83,7 @@ def main(argv):
         # 3. audit --------------------------------------------------------------------------
         aud = {"theorems": [], "examples": 0, "axioms": {}, "problems": []}
         if ok:
-            aud = common.audit(pid, mod.PROPS)
+            aud = common.audit(pid, mod.PROPS, getattr(mod, "DRIVER_ROOTS", ()))
             for p in aud["problems"]:
                 broken.append("audit: " + p)
 
